@@ -22,9 +22,15 @@ var vfC37Stray = []string{"\x80", "\xbf", "\xc3", "\xe6\x97", "\xf0\x9f\x98", "\
 
 func vfC37GenContent(r *vfRand, invalid bool) []byte {
 	var b bytes.Buffer
-	nl := r.Intn(7)
+	nl := 1 + r.Intn(6)
+	if r.Chance(6) {
+		nl = 0
+	}
 	for i := 0; i < nl; i++ {
 		nw := r.Intn(5)
+		if r.Chance(70) {
+			nw = 2 + r.Intn(4)
+		}
 		for j := 0; j < nw; j++ {
 			b.WriteString(r.Pick(vfC37Words))
 			if invalid && r.Chance(25) {
@@ -111,6 +117,9 @@ func TestVerifC37(t *testing.T) {
 		namesValid := true
 		for j := 0; j < nt; j++ {
 			line := r.Intn(nlines+3) - 1
+			if r.Chance(75) {
+				line = 1 + r.Intn(nlines)
+			}
 			if r.Chance(3) {
 				line = -5
 			}
@@ -118,7 +127,7 @@ func TestVerifC37(t *testing.T) {
 			if line >= 1 && line <= len(lines) && r.Chance(70) {
 				// mostly pick a (sub)word that occurs on the chosen line
 				if l := lines[line-1]; len(l) > 0 {
-					if stream == 2 && r.Chance(50) {
+					if stream == 2 && r.Chance(70) {
 						// byte-offset slice: may cut a rune in half
 						a := r.Intn(len(l))
 						b := a + 1 + r.Intn(4)
